@@ -19,7 +19,8 @@ model = {"prog": [[action, ...], ...],   # prog[0] = construct_model body, prog[
          "streams": [[name, seed], ...], "stream_mode": "new" | "setseed" | "updater",
          "updater": {"kind": "seed"|"simple", "seeds": {name: [seed of replication 0, 1, ...]}, "nr": replication number,
                      "container": "dict"|"si", "explicit_fallback": bool},
-         "pre": [[time, prio, h, "early"|"late"], ...]}   # SimEvent objects built before initialize (see build_early)
+         "pre": [[time, prio, h, "early"|"late"], ...],   # SimEvent objects built before initialize (see build_early)
+         "simlst": [[notification, [action, ...]], ...]}  # components built in construct_model that listen to the simulator
 action = ["sched", mode, prio, h] | ["cancel", k] | ["fail"] | ["cmd", cmd] | ["obs", sid, v]
        | ["obsd", sid, stream, lo, hi] | ["obsf", sid, stream] | ["fire", et] | ["sub", et, l] | ["unsub", et, l]
        | ["schedpre", j]               # simulator.schedule_event(pre-built event j), at most once per replication
@@ -35,7 +36,7 @@ import threading
 import time
 
 QUIET = {"NOT_INITIALIZED", "INITIALIZED", "STOPPED", "ENDED"}
-LISTS = ("trace", "outs", "ntfs", "obs", "canc", "dlv", "draws", "log")
+LISTS = ("trace", "outs", "ntfs", "obs", "canc", "dlv", "slv", "draws", "log")
 SKIP_GETTERS = {"add_listener", "fire", "fire_event", "fire_timed", "fire_timed_event", "initialize", "listen_to",
                 "notify", "register", "remove_all_listeners", "remove_listener", "report_footer", "report_header",
                 "end_observations"}
@@ -76,6 +77,7 @@ def run_both(case, name):
             twin["models"] = case["models"]
             twin["cmds"][0][4] = mi
             twin["cmds"][1:] = [list(x) for x in case["cmds"][j + 1:]]
+        twin["cmds"] = [[y for y in x if y not in ("fromend", "asap")] for x in twin["cmds"]]
         try:
             out["twin"] = run_case(twin, name + "t")
         except Exception as exc:
@@ -203,7 +205,8 @@ def run_case(case, name, early=None):
     rec = {k: [] for k in LISTS}
     rec.update({"snaps": [], "notes": [], "marks": [], "pre_init": [], "late_ntfs": [], "racy_snaps": []})
     stop_at = set(case.get("stop_at") or [])
-    state = {"exec_in_repl": 0, "serial": 0, "old_threads": set(), "in_init": False}
+    state = {"exec_in_repl": 0, "serial": 0, "old_threads": set(), "in_init": False, "issuing": set(), "current": None}
+    fromend = {"cmds": None, "done": threading.Event(), "results": []}
 
     NT = [(ReplicationInterface.START_REPLICATION_EVENT, "startrepl"),
           (SimulatorInterface.STARTING_EVENT, "starting"),
@@ -227,7 +230,7 @@ def run_case(case, name, early=None):
         def notify(self, event):
             nm = names.get(id(event.event_type), "other")
             ts = getattr(event, "timestamp", None)
-            if threading.current_thread() in state["old_threads"]:
+            if threading.current_thread() in state["old_threads"] and threading.current_thread() not in state["issuing"]:
                 # fired by the run thread of a replication that was re-initialised away
                 if state["in_init"]:
                     rec["log"].append(["ntf-from-old-thread-during-initialize", nm])
@@ -250,12 +253,41 @@ def run_case(case, name, early=None):
 
     slow_listeners = {k: SlowListener(d) for k, d in slow.items()}
 
+    class EndDriver(EventListener):
+        """what an experiment driver does: when a replication has ended, initialise (and start) the next one from
+        inside the END_REPLICATION notification, subscribing its listeners again"""
+        def notify(self, event):
+            if fromend["cmds"] is None:
+                return
+            todo, fromend["cmds"] = fromend["cmds"], None
+            for ci, c in todo:
+                if c[0] == "init":
+                    ctx = begin_init(ci)
+                    r = issue(c)
+                    finish_init(ctx, r, c)
+                    subscribe()
+                    wait_quiet()
+                    fromend["results"].append((r, snapshot()))
+                else:
+                    fromend["results"].append((issue(c), None))       # returns at once, like a driver
+            fromend["done"].set()
+
+    end_driver = EndDriver()
+
     def subscribe():
         for et, _ in NT:
             sim.add_listener(et, coll)
         for et, nm in NT:
             if nm in slow_listeners:
                 sim.add_listener(et, slow_listeners[nm])
+        if any(is_fromend(c) for c in case["cmds"]):
+            sim.add_listener(ReplicationInterface.END_REPLICATION_EVENT, end_driver)
+
+    def is_fromend(c):
+        return c[-1] == "fromend"
+
+    def snapshot():
+        return [sim.run_state.name, sim.replication_state.name, to_q(sim.simulator_time), sim.eventlist().size()]
 
     def rec_class(base):
         class Rec(base):
@@ -275,6 +307,14 @@ def run_case(case, name, early=None):
 
     def issue(c):
         """issue a command; returns 'ok' | 'refused' | 'exc:<Type>'"""
+        me = threading.current_thread()
+        state["issuing"].add(me)
+        try:
+            return issue_(c)
+        finally:
+            state["issuing"].discard(me)
+
+    def issue_(c):
         try:
             k = c[0]
             if k == "init":
@@ -305,6 +345,24 @@ def run_case(case, name, early=None):
             return "refused"
         except Exception as exc:  # noqa
             return "exc:" + type(exc).__name__
+
+    SIMEV = {"startrepl": ReplicationInterface.START_REPLICATION_EVENT, "start": SimulatorInterface.START_EVENT,
+             "time": SimulatorInterface.TIME_CHANGED_EVENT, "warmup": ReplicationInterface.WARMUP_EVENT,
+             "stop": SimulatorInterface.STOP_EVENT, "endrepl": ReplicationInterface.END_REPLICATION_EVENT}
+
+    class SimComponent(EventListener):
+        """a model component built in construct_model that listens to the SIMULATOR (warm-up, time changes, starts)
+        and reacts by drawing from the model's streams / scheduling events"""
+        def __init__(self, model, idx, gen):
+            self.model = model
+            self.idx = idx
+            self.gen = gen
+
+        def notify(self, event):
+            ent = [self.idx, self.model.spec["simlst"][self.idx][0], to_q(sim.simulator_time)]
+            rec["slv"].append(ent)
+            rec["log"].append(["slv"] + ent + [self.gen])
+            self.model.interp(self.model.spec["simlst"][self.idx][1])
 
     class UserListener(EventListener):
         def __init__(self, model, l):
@@ -377,6 +435,9 @@ def run_case(case, name, early=None):
             # producers, listeners and statistics are built anew, as the documentation's examples do
             self.producer = EventProducer()
             self.listeners = [UserListener(self, l) for l in range(len(spec.get("lst", [])))]
+            self.components = [SimComponent(self, ix, self.generation) for ix in range(len(spec.get("simlst", [])))]
+            for ix, (ntf, _) in enumerate(spec.get("simlst", [])):
+                sim.add_listener(SIMEV[ntf], self.components[ix])
             rec["log"].append(["newproducer"])
             for et, l in spec.get("subs", []):
                 rec["log"].append(["sub", et, l])
@@ -525,43 +586,67 @@ def run_case(case, name, early=None):
     def is_asap(c):
         return c[0] == "init" and len(c) > 5 and c[5] == "asap"
 
-    current = None
+    def begin_init(ci):
+        mark = {k: len(rec[k]) for k in LISTS}
+        mark["cmd"] = ci
+        mark["snaps"] = ci
+        ctx = {"mark": mark, "pre": stat_snapshot(), "exec": state["exec_in_repl"], "old": set(state["old_threads"])}
+        state["exec_in_repl"] = 0
+        state["old_threads"] |= {t for t in threading.enumerate() if t.name == name}
+        state["in_init"] = True
+        return ctx
+
+    def finish_init(ctx, r, c):
+        state["in_init"] = False
+        if r == "ok":
+            rec["marks"].append(ctx["mark"])
+            rec["pre_init"].append(ctx["pre"])
+            state["current"] = models[c[4] if len(c) > 4 and isinstance(c[4], int) else 0]
+        else:
+            state["exec_in_repl"] = ctx["exec"]
+            state["old_threads"] = ctx["old"]
+
     cmds = case["cmds"]
     for ci, c in enumerate(cmds):
-        if c[0] == "init":
-            mark = {k: len(rec[k]) for k in LISTS}
-            mark["cmd"] = ci
-            mark["snaps"] = len(rec["snaps"])
-            pre = stat_snapshot()
-            saved_exec = state["exec_in_repl"]
-            state["exec_in_repl"] = 0
-            saved_old = set(state["old_threads"])
-            state["old_threads"] |= {t for t in threading.enumerate() if t.name == name}
-            state["in_init"] = True
+        if is_fromend(c):
+            # was (or should have been) performed by the END_REPLICATION listener
+            r, snap = fromend["results"].pop(0) if fromend["results"] else ("notrun", None)
+            if snap is None:
+                wait_quiet()
+                snap = snapshot()
+            rec["snaps"].append([r] + snap)
+            rec["log"].append(["cmd", c, r] + snap)
+            continue
+        arm = []
+        k = ci + 1
+        while k < len(cmds) and is_fromend(cmds[k]):
+            arm.append((k, cmds[k]))
+            k += 1
+        if arm:
+            fromend["done"].clear()
+            fromend["cmds"] = arm
+        ctx = begin_init(ci) if c[0] == "init" else None
         r = issue(c)
-        state["in_init"] = False
-        if ci + 1 < len(cmds) and is_asap(cmds[ci + 1]) and c[0] in ("start", "runupto", "runuptoincl"):
+        if ctx is not None:
+            finish_init(ctx, r, c)
+        if arm:
+            if not fromend["done"].wait(12):
+                rec["notes"].append("the END_REPLICATION listener that drives the next replication was never notified")
+            rec["racy_snaps"].append(ci)
+            wait_quiet()
+        elif ci + 1 < len(cmds) and is_asap(cmds[ci + 1]) and c[0] in ("start", "runupto", "runuptoincl"):
             wait_not_running()
             rec["racy_snaps"].append(ci)
         else:
             wait_quiet()
-        if c[0] == "init":
-            if r == "ok":
-                rec["marks"].append(mark)
-                rec["pre_init"].append(pre)
-                current = models[c[4] if len(c) > 4 else 0]
-            else:
-                state["exec_in_repl"] = saved_exec
-                state["old_threads"] = saved_old
         if c[0] in ("init", "cleanup", "initbad"):
             subscribe()
-        rec["snaps"].append([r, sim.run_state.name, sim.replication_state.name,
-                             to_q(sim.simulator_time), sim.eventlist().size()])
-        rec["log"].append(["cmd", c, r, sim.run_state.name, sim.replication_state.name,
-                           to_q(sim.simulator_time), sim.eventlist().size()])
-    if slow:
-        # let every slow subscriber finish, then look at the simulator once more
-        time.sleep(max(slow.values()) + 0.25)
+        rec["snaps"].append([r] + snapshot())
+        rec["log"].append(["cmd", c, r] + snapshot())
+    current = state["current"]
+    if slow or any(is_fromend(c) for c in cmds):
+        # let every slow subscriber / the old run thread finish, then look at the simulator once more
+        time.sleep(max(list(slow.values()) + [0.05]) + 0.25)
         wait_quiet()
     rec["settled"] = [sim.run_state.name, sim.replication_state.name, to_q(sim.simulator_time), sim.eventlist().size()]
 
